@@ -52,6 +52,16 @@ def apply_fault(text, f):
     n = len(text)
     if kind == "truncate":
         at = f["at"] % (n + 1)
+        if f.get("bias") == "complex":
+            # land inside an externally mapped record when the file has one (in-flight state: some parts read, some not)
+            spans = []
+            for m in re.finditer(r"#[0-9]+\s*=\s*\(", text):
+                semi = text.find(";", m.end())
+                if semi > 0:
+                    spans.append((m.end(), semi))
+            if spans:
+                a, b = spans[f["at"] % len(spans)]
+                at = a + (f["at"] // 7) % max(1, b - a)
         return text[:at], at < n, _region(text, at)
     if kind in ("flip", "nul", "hibit", "setbyte"):
         if n == 0:
@@ -170,12 +180,22 @@ def _region(text, at):
         sect = "header"
     else:
         sect = "data"
+    cx = ""
+    if sect == "data":
+        # inside an externally mapped record  #n=( A(..) B(..) ) ?
+        for m in re.finditer(r"#[0-9]+\s*=\s*\(", text):
+            if m.end() <= at:
+                semi = text.find(";", m.end())
+                if semi < 0 or at <= semi:
+                    cx = "complex:"
+            elif m.start() > at:
+                break
     for s, e, k in tokens(text):
         if s <= at < e:
-            return sect + ":" + k
+            return sect + ":" + cx + k
         if s > at:
             break
-    return sect + ":ws"
+    return sect + ":" + cx + "ws"
 
 
 def apply_all(text, faults):
@@ -196,7 +216,7 @@ def gen_fault(r, kinds=None, schema_names=None):
     k = r.choice(kinds)
     big = r.randint(0, 10 ** 9)
     if k == "truncate":
-        return {"kind": k, "at": big}
+        return {"kind": k, "at": big, "bias": "complex"} if r.random() < 0.3 else {"kind": k, "at": big}
     if k == "flip":
         return {"kind": k, "at": big, "mask": r.choice([1, 2, 4, 8, 16, 32, 64, 128, 255])}
     if k in ("nul", "hibit"):
